@@ -51,12 +51,44 @@ def st_agg_join(draw):
     return base
 
 
+@st.composite
+def st_int_key_join(draw):
+    """Typed (integer) key columns, so that field keys can be compared with NR / bNR: `a1 == bNR`, `NR == b1`."""
+    ints = [0, 1, 2, 3, -1, -2, 4]
+    A = [[draw(st.sampled_from(ints)), draw(st.sampled_from(['p', 'q', '']))] for _ in range(draw(st.integers(0, 5)))]
+    B = [[draw(st.sampled_from(ints)), draw(st.sampled_from(['u', 'v']))] for _ in range(draw(st.integers(0, 4)))]
+    form = draw(st.integers(0, 3))
+    if form == 0:
+        l, r = {'f': {'py': 'a1', 'js': 'a1', 'idx': 0}}, {'nr': draw(st.sampled_from(['bNR', 'b.NR']))}
+    elif form == 1:
+        l, r = {'nr': draw(st.sampled_from(['NR', 'aNR', 'a.NR']))}, {'f': {'py': 'b1', 'js': 'b1', 'idx': 0}}
+    elif form == 2:
+        l, r = {'f': {'py': 'a1', 'js': 'a1', 'idx': 0}}, {'f': {'py': 'b1', 'js': 'b1', 'idx': 0}}
+    else:
+        l, r = {'nr': 'NR'}, {'nr': 'bNR'}
+    # sides may be swapped when the A side is a field (`bNR == a1`); `b1 == NR` / `bNR == NR` are not in the stated grammar
+    pairs = [{'l': l, 'r': r, 'eq': draw(st.sampled_from(['==', '=', ' == '])), 'swap': ('f' in l) and draw(st.booleans())}]
+    if draw(st.integers(0, 3)) == 0:
+        pairs.append({'l': {'f': {'py': 'a2', 'js': 'a2', 'idx': 1}}, 'r': {'f': {'py': 'b2', 'js': 'b2', 'idx': 1}}, 'eq': '==', 'swap': False})
+    join = {'kind': draw(st.sampled_from(qgen.JOIN_KINDS)), 'pairs': pairs, 'table': 'b', 'and': 'and'}
+    items = [{'k': draw(st.sampled_from(['star', 'astar', 'bstar']))}]
+    for v in draw(st.lists(st.sampled_from(['NR', 'bNR', 'a1', 'b1', 'b2', 'a2']), max_size=3)):
+        nm = {'id': v} if v in ('NR', 'bNR') else {'f': [v[0], int(v[1]) - 1]}
+        items.append({'k': 'expr', 'e': {'py': v, 'js': v, 'name': nm, 'ty': 'any'}})
+    q = {'type': 'select', 'items': items, 'join': join}
+    if draw(st.integers(0, 3)) == 0:
+        q['where'] = qgen.mk('NR % 2', 'NR % 2', 'int')
+    if draw(st.integers(0, 3)) == 0:
+        q['order'] = {'keys': [qgen.mk('-NR', '-NR', 'int')], 'desc': draw(st.booleans()), 'asc_kw': False}
+    return {'A': A, 'B': B, 'a_names': None, 'b_names': None, 'q': q}
+
+
 def strategy():
     sel = qgen.st_case_select(force_join=True, order=True, distinct=True, top=True, where_p=3, except_p=0, dup_heavy=True, max_rows=6, max_width=3)
     plain = qgen.st_case_select(force_join=True, order=False, distinct=False, top=False, where_p=3, except_p=0, dup_heavy=True, max_rows=6, max_width=3)
     upd = qgen.st_case_update(join_p=1, multi_match=True)
     upd1 = qgen.st_case_update(join_p=1, multi_match=False)
-    return st.one_of(plain, plain, sel, sel, st_agg_join(), upd, upd1)
+    return st.one_of(plain, plain, sel, sel, st_agg_join(), upd, upd1, st_int_key_join())
 
 
 def check_case(case, stats=None):
